@@ -110,7 +110,11 @@ def main(argv=None):
     mon = importlib.import_module(f"vlib.monitors.{prop}")
     if a.replay:
         w = json.load(open(a.replay))
-        rc = mon.replay(w)
+        if (w.get("witness") or {}).get("klass") == "suite":
+            from . import suite
+            rc = suite.replay(prop, w)
+        else:
+            rc = mon.replay(w)
         sys.exit(rc)
     t0 = time.time()
     plan = mon.plan(a.tier, a.seed)
